@@ -82,6 +82,15 @@ class ThermochemIncomplete(ThermochemBase):
             self._correlation = ThermochemRawData(
                 ND_H_ref, ND_S_ref, Ts, ND_Cps, self.T_ref, self.get_range())
 
+    def set_range(self, range=None):
+        ThermochemBase.set_range(self, range)
+        # The internal correlation does the range checking: keep it in step.
+        if hasattr(self, '_correlation'):
+            if range is None:
+                range = (self._correlation.min_T, self._correlation.max_T)
+            self._correlation.set_range(range)
+    set_range.__doc__ = ThermochemBase.set_range.__doc__
+
     def has_ND_Cp(self, T=None):
         """Return True if correlation has |eq_ND_Cp_T| data (possibly at `T`).
 
